@@ -40,7 +40,7 @@ ASSUMPTIONS = [
     "the oracle runs in an isolated child: an interpreter crash or hang while using the surviving state is a violation",
 ]
 
-WORKLOADS = ["create", "overwrite", "overwrite_trees", "meta", "trees", "retrees_edges", "retrees_count", "retrees_closed", "retrees_unbinned", "retrees_binned", "retrees_force", "measure", "corrfunc_new", "corrfunc_over", "corrdata_new", "corrdata_over"]
+WORKLOADS = ["create", "overwrite", "overwrite_trees", "meta", "trees", "retrees_edges", "retrees_count", "retrees_closed", "retrees_unbinned", "retrees_binned", "retrees_force", "retrees_twice", "measure", "corrfunc_new", "corrfunc_over", "corrdata_new", "corrdata_over"]
 
 
 @st.composite
@@ -58,7 +58,7 @@ def small_catalog(draw, K, base_ra):
 @st.composite
 def case_strategy(draw, workloads=WORKLOADS):
     wl = draw(st.sampled_from(workloads))
-    K = draw(st.integers(1, 2 if wl == "measure" else 3))
+    K = draw(st.integers(3, 4)) if wl == "retrees_twice" else draw(st.integers(1, 2 if wl == "measure" else 3))
     centers = [[1.0 + 0.05 * p, 0.0] for p in range(K)]
     case = {"workload": wl, "K": K, "centers": centers, "new": draw(small_catalog(K, 1.0)), "old": draw(small_catalog(K, 1.0)), "other": draw(small_catalog(K, 1.0))}
     # prior catalog of an overwrite may have fewer patches than the new one; creation may span several chunks
@@ -234,6 +234,10 @@ def run_case(case):
                 Catalog(cat_path, max_workers=1).build_trees(case["edges_a"], closed=closed_a, max_workers=1)
             elif wl == "retrees_force":
                 Catalog(cat_path, max_workers=1).build_trees(case["edges_a"], closed=closed_a, force=True, max_workers=1)
+            elif wl == "retrees_twice":
+                # phase 1: rebuild for the other binning; phase 2 (after the first crash): back again
+                edges = case["edges_b"] if phase[0] == 1 else case["edges_a"]
+                Catalog(cat_path, max_workers=1).build_trees(edges, closed=closed_a, max_workers=1)
             elif wl == "measure":
                 import yaw
 
@@ -245,9 +249,73 @@ def run_case(case):
             elif wl.startswith("corrdata"):
                 gen.build_sampled(case["product_new"]).to_files(world / case.get("prefix", "product"))
 
-        def reset_world():
+        phase = [1]
+
+        def reset_world(src=None):
             shutil.rmtree(world, ignore_errors=True)
-            shutil.copytree(template, world)
+            shutil.copytree(src or template, world)
+
+        if wl == "retrees_twice":
+            # two successive interrupted rebuilds: the first one dies late, the second one (back to the
+            # first binning) early, which leaves patches of one catalog in different states
+            try:
+                def points(src, fractions):
+                    reset_world(src)
+                    paths, status = crash.discover(workload, world, tmp)
+                    if status != 0:
+                        return None, None
+                    reset_world(src)
+                    events, _ = crash.count(workload, paths, tmp)
+                    idx = {min(len(events) - 1, int(f * len(events))) for f in fractions} if events else set()
+                    # plus every point right after a patch's new label was published, i.e. between two patches
+                    idx |= {i + 1 for i, (kind, n, line) in enumerate(events[:-1]) if kind.startswith("rename") and "binning" in line}
+                    return paths, [events[i] for i in sorted(idx)]
+
+                paths1, ev1 = points(template, (0.93,))
+                if ev1 is None:
+                    ck.n_eval = 1
+                    ck.fail(f"workload-failed-uncrashed:{wl}", "phase 1")
+                    return ck.results()
+                stage = tmp / "after_first_crash"
+                for kind1, n1, line1 in ev1:
+                    phase[0] = 1
+                    reset_world(template)
+                    killed, _ = crash.kill_at(workload, paths1, kind1, n1, tmp)
+                    if not killed:
+                        continue
+                    shutil.rmtree(stage, ignore_errors=True)
+                    shutil.copytree(world, stage)
+                    phase[0] = 2
+                    paths2, ev2 = points(stage, (0.1,))
+                    if ev2 is None:
+                        continue  # the second rebuild refuses the damaged cache: loud, fine
+                    for kind2, n2, line2 in ev2:
+                        reset_world(stage)
+                        killed, _ = crash.kill_at(workload, paths2, kind2, n2, tmp)
+                        ck.n_eval += 1
+                        if not killed:
+                            continue
+                        ck.digests.append(crash.tree_state(world)[:12])
+                        where = f"first rebuild killed before {kind1}#{n1}, rebuild back killed before {kind2}#{n2}: {line2[:80]}"
+                        scratch = tmp / "oracle"
+                        shutil.rmtree(scratch, ignore_errors=True)
+                        scratch.mkdir()
+                        status_, verdict = run_isolated(evaluate_catalog_state, (cat_path, case, allowed, cfgs, scratch), bound=60.0)
+                        if status_ == "hung":
+                            ck.fail(f"oracle-hang:{wl}", where)
+                        elif status_ in ("died", "exc"):
+                            ck.fail(f"oracle-crash:{wl}:{status_}", f"{where}: {verdict}")
+                        elif status_ == "ok":
+                            if verdict["records"] and str(verdict["records"]).startswith("WRONG"):
+                                ck.fail(f"catalog-opens-with-wrong-records:{wl}", f"{where}: {verdict['records']}")
+                            elif isinstance(verdict["measure"], dict):
+                                keys = sorted(verdict["measure"])
+                                ck.fail(f"measurement-silently-wrong:{wl}:{'+'.join(k.split(':')[0] for k in keys[:1])}", f"{where}: {keys} e.g. {verdict['measure'][keys[0]]}")
+            except crash.StraceUnavailable as e:
+                raise HarnessError(str(e))
+            ck.nontrivial = len(ck.digests) > 0
+            ck.n_eval = max(ck.n_eval, 1)
+            return ck.results()
 
         # ---------------- enumerate crash points
         try:
